@@ -111,6 +111,14 @@ pub fn run(r: &mut Runner) -> &'static str {
         .into();
     let n = r.n(400_000, 10_000_000);
     r.random("c06.differential", n, 200, &gen_case, &judge);
+    // the same check over chains of related inputs judged back to back on one thread (history independence)
+    let n = r.n(40000, 1000000);
+    r.random("c06.chains", n, 260, &|t| crate::gen::gen_chain(t, &gen_case), &|c: &crate::engine::Chain, st: &mut Stats| {
+        for x in &c.0 {
+            judge(x, st)?;
+        }
+        Ok(())
+    });
     let work = |shard: usize, nshards: usize, st: &mut Stats, _stop: &AtomicBool| -> Option<(Vec<u8>, Fail)> {
         let alpha = [0x0Du8, 0x0A, 0x00, b'P', b'Q', b' ', 0x21, 0xFF];
         let mut cases: Vec<Vec<u8>> = Vec::new();
